@@ -253,3 +253,29 @@ pub fn bytes(len: impl Into<proptest::collection::SizeRange>) -> BoxedStrategy<V
     .prop_map(|(uni, pat, sel)| if sel & 1 == 0 { uni } else { pat })
     .boxed()
 }
+
+/// Fq values with emphasis on what the Elligator map and the square-root routine are
+/// sensitive to: 0, +-1, small integers, powers of zeta, roots of unity of order 2^k.
+pub fn fq_special() -> BoxedStrategy<Num> {
+    use crate::refmodel::CURVE;
+    let q = Q.m.clone();
+    let q2 = q.clone();
+    let zeta = CURVE.zeta.clone();
+    let g = Q.pow(&zeta, &Q.trace); // generator of the 2-Sylow subgroup (order 2^47)
+    let g2 = g.clone();
+    let q3 = q.clone();
+    prop_oneof![
+        6 => fe(&q),
+        2 => (0u32..32, any::<bool>()).prop_map(move |(s, neg)| Num(if neg { (&q2 - N::from(s)) % &q2 } else { N::from(s) })),
+        2 => (0u32..200, any::<bool>()).prop_map(move |(k, neg)| { let v = Q.pow(&zeta, &N::from(k)); Num(if neg { Q.neg(&v) } else { v }) }),
+        // root of unity of exact order 2^k, k = 0..=47, times an odd power
+        2 => (0u32..=47, 0u32..64).prop_map(move |(k, odd)| {
+            let e = (N::one() << (47 - k)) * N::from(2 * odd + 1);
+            Num(Q.pow(&g, &e))
+        }),
+        // arbitrary element of the 2-Sylow subgroup
+        1 => any::<u64>().prop_map(move |e| Num(Q.pow(&g2, &N::from(e & ((1u64 << 47) - 1))))),
+        1 => (0u32..64).prop_map(move |s| Num((&q3 - 1u32) / 2u32 + N::from(s))),
+    ]
+    .boxed()
+}
